@@ -325,10 +325,16 @@ func c17Run(c *mc.Ctx) {
 	}{{"ReadBool", ref.BOOL}, {"ReadByte", ref.BYTE}, {"ReadI16", ref.I16}, {"ReadI32", ref.I32}, {"ReadI64", ref.I64}, {"ReadDouble", ref.DOUBLE}} {
 		vals = append(vals, sv{method: m.method, v: gen.Small(m.t, 0)})
 	}
-	for _, n := range []int{0, 1, 5, 300, 4097} {
+	for _, n := range []int{0, 1, 5, 300, 4097, 20000, 40000} {
 		s := ref.Value{T: ref.STRING, S: stream(n)}
-		vals = append(vals, sv{method: "ReadString", v: s}, sv{method: "ReadBinary", v: s})
+		vals = append(vals, sv{method: "ReadString", v: s}, sv{method: "ReadBinary", v: s}, sv{method: "Skip", v: s})
 	}
+	// a struct holding a large string and a list of fixed-size elements larger than 16 KiB / 32 KiB (skipped in one piece)
+	bigList := ref.Value{T: ref.LIST, Elem: ref.I64}
+	for i := 0; i < 5000; i++ {
+		bigList.L = append(bigList.L, ref.Value{T: ref.I64, I: uint64(i)})
+	}
+	vals = append(vals, sv{method: "Skip", v: bigList}, sv{method: "Skip", v: ref.Value{T: ref.STRUCT, F: []ref.Field{{ID: 1, V: ref.Value{T: ref.STRING, S: stream(20000)}}, {ID: 2, V: bigList}}}})
 	vals = append(vals,
 		sv{method: "ReadFieldBegin", raw: []byte{0x0b, 0x00, 0x01}},
 		sv{method: "ReadMapBegin", raw: []byte{0x0b, 0x0b, 0, 0, 0, 1}},
@@ -361,10 +367,13 @@ func c17Run(c *mc.Ctx) {
 		}
 		step := 1
 		if len(enc) > 600 {
-			step = 61 // long strings: every 61st cut plus the boundaries below
+			step = 61 // long values: every 61st cut plus the boundaries below
+			if len(enc) > 10000 {
+				step = 509
+			}
 		}
 		for cut := 0; cut < len(enc); cut++ {
-			if step > 1 && cut%step != 0 && cut > 8 && cut < len(enc)-8 && cut != 4095 && cut != 4096 && cut != 4097 {
+			if step > 1 && cut%step != 0 && cut > 8 && cut < len(enc)-8 && cut != 4095 && cut != 4096 && cut != 4097 && cut%16384 > 2 && cut%16384 < 16382 {
 				continue
 			}
 			cuts++
